@@ -386,12 +386,11 @@ def gen_merge_case(rng, valid):
         r = rng.random()
         if r < 0.25:
             spec['cov'] = {'bbox': gen_cov_bbox(rng, w, h), 'clip': r < 0.18}
-            if r < 0.01 and not valid:
-                spec['cov']['raw_bbox'] = True
+            spec['cov']['raw_bbox'] = rng.random() < 0.5
         layers.append(spec)
     gcov = None
     if nl and rng.random() < 0.2:
-        gcov = {'bbox': gen_cov_bbox(rng, w, h), 'clip': True}
+        gcov = {'bbox': gen_cov_bbox(rng, w, h), 'clip': True, 'raw_bbox': rng.random() < 0.5}
     return {'w': w, 'h': h, 'opts': o, 'layers': layers, 'gcov': gcov, 'size_given': nl == 0 or rng.random() < 0.8}
 
 
@@ -402,16 +401,9 @@ def create_mode_py(o):
 
 
 def merge_triggers(case):
-    """features of an input that reach a recorded defect of the implementation (see known_findings.d/C14.json)"""
+    """features of an input outside the contract of LayerMerger (not failures)"""
     trig = []
     o = case['opts']
-    rgb_result = create_mode_py(o) != 'RGBA'
-    for l in case['layers']:
-        op = l['opts']['opacity'] if l['opts'] else None
-        if rgb_result and op is not None and op < 1.0 and any(p[3] < 255 for p in effective_pixels(l)):
-            trig.append('merge,blend-ignores-alpha')
-    if case['gcov'] is not None and not rgb_result:
-        trig.append('merge,global-clip-alpha')
     ls = case['layers']
     if len(ls) == 1 and ls[0]['opts'] is not None and not ls[0]['opts']['transparent'] and not o['transparent']:
         if any(p[3] < 255 for p in effective_pixels(ls[0])) and ls[0]['clip'] is None:
@@ -447,18 +439,22 @@ def run_merge_case(case):
             opts = ImageOptions(transparent=l['opts']['transparent'], opacity=l['opts']['opacity'])
         cov = None
         if l['cov'] is not None:
-            if l['cov']['clip'] and not l['cov'].get('raw_bbox'):
-                cov = coverage(box(*l['cov']['bbox']), srs, clip=True)
-                l['clip'] = real_mask(size, bbox, cov)
+            if l['cov'].get('raw_bbox'):
+                cov = coverage(l['cov']['bbox'], srs, clip=l['cov']['clip'])      # BBOXCoverage
             else:
-                cov = coverage(l['cov']['bbox'], srs, clip=l['cov']['clip'])
+                cov = coverage(box(*l['cov']['bbox']), srs, clip=l['cov']['clip'])  # GeomCoverage
+            if l['cov']['clip']:
+                l['clip'] = real_mask(size, bbox, cov)
         src = ImageSource(im, size=size, image_opts=opts)
         sources.append(src)
         merger.add(src, cov)
     gc = None
     case['gmask'] = None
     if case['gcov'] is not None:
-        gc = coverage(box(*case['gcov']['bbox']), srs, clip=True)
+        if case['gcov'].get('raw_bbox'):
+            gc = coverage(case['gcov']['bbox'], srs, clip=True)
+        else:
+            gc = coverage(box(*case['gcov']['bbox']), srs, clip=True)
         case['gmask'] = real_mask(size, bbox, gc)
     o = case['opts']
     ropts = ImageOptions(mode=o['mode'], transparent=o['transparent'], bgcolor=o['bgcolor'])
@@ -544,8 +540,6 @@ def stream_merge(ctx):
             case['valid'] = valid
             if valid and case['opts']['mode'] == 'RGB' and case['opts']['transparent']:
                 case['opts']['mode'] = None      # explicit RGB with transparent=true: inconsistent request options
-        if done >= ncorpus and case['valid'] and merge_triggers_pre(case) and rng.random() < 0.85:
-            continue                             # most valid cases stay clear of the recorded defects
         done += 1
         if case['opts']['bgcolor'] is not None:
             case['opts']['bgcolor'] = tuple(case['opts']['bgcolor'])
@@ -567,11 +561,6 @@ def stream_merge(ctx):
             ctx.count('merge:layer_mode=%s' % l['mode'])
         if case.get('valid', True):
             oracle_merge(ctx, case, obs)
-        if obs[0] == 9 and any(l['cov'] and l['cov'].get('raw_bbox') for l in case['layers']):
-            ctx.count('merge:bbox-clip-raises (outside the model: no mask exists)')
-            ctx.fail('merge,bbox-clip-raises', 'mask_image raises AttributeError for a BBOXCoverage with clip=True',
-                     describe_merge(case, obs))
-            continue
         terms.append(merge_case_term(case, obs))
         descr.append((case, obs))
     ctx.corr_check('merge', 'Compose', MERGE_TYPE, terms, MERGE_CHECK, lambda i: describe_merge(*descr[i]), shard=150)
@@ -639,14 +628,13 @@ def gen_config(rng, avoid_known):
     unames = ['u%d' % i for i in range(8)]
     sources = {}
     for i in range(nsrc):
-        tr = rng.random() < 0.65
+        tr = rng.choice([True, True, True, False, False, None])
         s = {'url': URLS[0] if rng.random() < 0.7 else URLS[1],
              'layers': rng.sample(unames, rng.choice([1, 1, 2])),
              'transparent': tr, 'opacity': None, 'cov': None, 'res': None, 'tcolor': None}
         r = rng.random()
         if r < 0.3:
-            s['opacity'] = rng.choice([0.5, 0.25, 0.3, 0.7, 1.0] if avoid_known else
-                                      [0.5, 0.25, 0.3, 0.7, 1.0, 0.0, 0.995, 0.99])
+            s['opacity'] = rng.choice([0.5, 0.25, 0.3, 0.7, 1.0, 0.0, 0.995, 0.99, 1.5])
         r = rng.random()
         if r < 0.3:
             kind = rng.choice(['contains', 'disjoint', 'partial', 'partial-clip', 'partial-clip'])
@@ -707,7 +695,9 @@ def write_config(cfg, d):
     import yaml
     srcs = {}
     for nm, s in cfg['sources'].items():
-        c = {'type': 'wms', 'req': {'url': s['url'], 'layers': ','.join(s['layers']), 'transparent': s['transparent']}}
+        c = {'type': 'wms', 'req': {'url': s['url'], 'layers': ','.join(s['layers'])}}
+        if s['transparent'] is not None:
+            c['req']['transparent'] = s['transparent']
         img = {}
         if s['opacity'] is not None:
             img['opacity'] = s['opacity']
@@ -717,7 +707,7 @@ def write_config(cfg, d):
         if img:
             c['image'] = img
         if s['cov'] is not None:
-            if s['cov']['clip'] and not s['cov'].get('raw_bbox'):
+            if s['cov']['clip'] and s['cov']['bbox'][0] % 2 == 0:
                 c['coverage'] = {'union': [{'bbox': s['cov']['bbox'], 'srs': 'EPSG:4326'}], 'clip': True}
             else:
                 c['coverage'] = {'bbox': s['cov']['bbox'], 'srs': 'EPSG:4326', 'clip': s['cov']['clip']}
@@ -765,7 +755,7 @@ def src_term(s, query, ids, intern, size, bbox):
     lnames = [intern['lname'].code(x) for x in tmpl.params.layers]
     tc = s.transparent_color
     return ('(mk_src %s %s %s %s %s %d %d %s %d %d %s %s %d %d)' % (
-        llit(ids), blit(wms), blit(res_ok), blit(bool(s.image_opts.transparent)), opfl(s.opacity), cov,
+        llit(ids), blit(wms), blit(res_ok), obool(s.image_opts.transparent), opfl(s.opacity), cov,
         intern['url'].code(tmpl.url), llit(lnames), intern['srs'].code(s.supported_srs), intern['fmt'].code(s.supported_formats),
         'None' if tc is None else '(Some %s)' % rgbl(tc), olit(s.transparent_color_tolerance),
         0 if s.coverage is None else intern['cov'].code(s.coverage),
@@ -991,23 +981,12 @@ def wms_triggers(server, req_names, transparent, query, world):
     allsrc = []
     for nm in req_names:
         allsrc.extend(expand_ideal(server.layers[nm]))
-    for s in allsrc:
-        op = s.opacity
-        if op is not None and (op <= 0.0 or 0.99 <= op < 1.0) and not s.image_opts.transparent:
-            trig.append('wms,prune-opacity')
-        if op is not None and op < 1.0 and not transparent:
-            trig.append('merge,blend-ignores-alpha')
     for a, b in zip(allsrc, allsrc[1:]):
         if a.client.request_template.url == b.client.request_template.url and a.opacity is None and b.opacity is None:
-            ra = not (a.res_range and not a.res_range.contains(query.bbox, query.size, query.srs))
-            rb = not (b.res_range and not b.res_range.contains(query.bbox, query.size, query.srs))
-            if not ra or not rb:
-                trig.append('wms,combine-res-range')
-            if not b.image_opts.transparent or \
-                    str(b.client.request_template.params.get('transparent', 'false')).lower() != 'true':
-                # the upper source is requested without transparency: rendered alone it hides everything below,
-                # combined into one upstream request the lower layers show through its holes
-                trig.append('wms,combine-transparent-mismatch')
+            if b.image_opts.transparent is None:
+                # the upper source has no transparent flag (treated as opaque by is_opaque and by the upstream
+                # server): rendered alone it hides everything below, combined the lower layers show through
+                trig.append('wms,combine-transparent-unset')
     return trig
 
 
